@@ -424,6 +424,9 @@ impl P {
                         if a_is_raw_hyphen && !(items.is_empty() || self.peek() == Some(']') || (self.peek() == Some('-') && self.peek_at(1) == Some('['))) {
                             self.unsure = Some("unescaped hyphen in the middle of a character group".into());
                         }
+                        if a_is_raw_hyphen && (matches!(items.last(), Some(ClassItem::Ch('-'))) || self.peek() == Some('-')) {
+                            self.unsure = Some("adjacent unescaped hyphens in a character group".into());
+                        }
                         items.push(ClassItem::Ch(a))
                     }
                 }
